@@ -66,9 +66,17 @@ type Template struct {
 	Script string `json:"script"` // concat1 | concat2 | wasm1 | noreturn | trap
 	Ask    uint64 `json:"ask"`
 	Min    uint64 `json:"min"`
+	// IBC: the request is IBC-originated (PrepareRequest with an IBC channel, as OnRecvPacket does) over a channel on
+	// which the response packet cannot be sent when the request resolves (no capability / closed channel).
+	IBC bool `json:"ibc,omitempty"`
 }
 
-func (t Template) String() string { return fmt.Sprintf("%s:%d:%d", t.Script, t.Ask, t.Min) }
+func (t Template) String() string {
+	if t.IBC {
+		return fmt.Sprintf("%s:%d:%d:ibc", t.Script, t.Ask, t.Min)
+	}
+	return fmt.Sprintf("%s:%d:%d", t.Script, t.Ask, t.Min)
+}
 
 // Cfg is one configuration.
 type Cfg struct {
@@ -235,8 +243,21 @@ func (s *spec) Step(w *engine.World, ctx sdk.Context, mm engine.Model, ev string
 		t := s.cfg.Templates[ti]
 		msg, sid, calldata := s.reqMsg(t)
 		before := k.GetRequestCount(ctx)
-		res := w.Tx(ctx, 0, msg)
+		var res engine.TxResult
+		if t.IBC {
+			cc, write := ctx.CacheContext()
+			if _, err := k.PrepareRequest(cc, msg, bandtesting.FeePayer.Address, &oracletypes.IBCChannel{PortId: "oracle", ChannelId: "channel-77"}); err != nil {
+				res = engine.TxResult{Err: err, Codespace: "oracle", Code: 1}
+			} else {
+				write()
+			}
+		} else {
+			res = w.Tx(ctx, 0, msg)
+		}
 		st.Outcome = "req:" + res.ErrName()
+		if t.IBC {
+			st.Outcome = "req-ibc:" + res.ErrName()
+		}
 		// acceptance of requests is given (fees: C13, committee: C09) except for what C01 states:
 		// an accepted request gets the next id and a stored Request mirroring the message.
 		if res.OK() {
@@ -518,10 +539,12 @@ func configs(quick bool) []Cfg {
 	var out []Cfg
 	if quick {
 		sets := [][]Template{
-			{{"concat1", 2, 1}, {"concat2", 3, 2}},
-			{{"wasm1", 3, 3}, {"noreturn", 1, 1}},
-			{{"trap", 2, 2}, {"concat1", 3, 1}},
+			{{Script: "concat1", Ask: 2, Min: 1}, {Script: "concat2", Ask: 3, Min: 2}},
+			{{Script: "wasm1", Ask: 3, Min: 3}, {Script: "noreturn", Ask: 1, Min: 1}},
+			{{Script: "trap", Ask: 2, Min: 2}, {Script: "concat1", Ask: 3, Min: 1}},
 		}
+		// IBC-originated requests whose response packet cannot be sent (one expiration value, lower depth)
+		out = append(out, Cfg{Templates: []Template{{Script: "concat1", Ask: 2, Min: 1, IBC: true}, {Script: "noreturn", Ask: 1, Min: 1, IBC: true}}, MaxReq: 2, Expiration: 2, Depth: 6, Shapes: []string{"ok"}})
 		for _, ts := range sets {
 			for _, exp := range []uint64{1, 2} {
 				out = append(out, Cfg{Templates: ts, MaxReq: 2, Expiration: exp, Depth: 7, Shapes: allShapes})
@@ -544,7 +567,7 @@ func configs(quick bool) []Cfg {
 			partner := scripts[(i+1)%len(scripts)]
 			i++
 			for _, exp := range []uint64{1, 2, 3} {
-				out = append(out, Cfg{Templates: []Template{{sc, p[0], p[1]}, {partner, q[0], q[1]}}, MaxReq: 3, Expiration: exp, Depth: 9, Shapes: allShapes})
+				out = append(out, Cfg{Templates: []Template{{Script: sc, Ask: p[0], Min: p[1]}, {Script: partner, Ask: q[0], Min: q[1], IBC: i%3 == 0}}, MaxReq: 3, Expiration: exp, Depth: 9, Shapes: allShapes})
 			}
 		}
 	}
@@ -559,12 +582,12 @@ func init() {
 			r.Assumptions = []string{
 				"committee (RequestedValidators) is taken as given from the stored request: selection is C09's subject",
 				"request acceptance w.r.t. fees is C13's subject; the payer is always funded",
-				"IBC-originated requests are not in the alphabet (same PrepareRequest path)",
+				"IBC-originated requests are created with PrepareRequest and an IBC channel on which the response packet cannot be sent at resolution (the hard case for result persistence); packet delivery itself is upstream",
 				"Tx seam = ValidateBasic + message-router handler in a cache context; who may sign a report is checked separately through the real FinalizeBlock (signed txs, authz grants): 6 cases",
 			}
 			r.Required = []string{"resolve-status:1", "resolve-status:2", "resolve-status:3",
 				"rep:ok:ok", "rep:ok:oracle/10", "rep:ok:oracle/11", "rep:ok:oracle/39", "rep:ok:oracle/5",
-				"rep:wrongeid:oracle/6", "rep:extra:oracle/12", "rep:dup:oracle/30", "auth:true", "auth:false"}
+				"rep:wrongeid:oracle/6", "rep:extra:oracle/12", "rep:dup:oracle/30", "auth:true", "auth:false", "req-ibc:ok"}
 			deadline := r.Deadline(4*time.Minute, 40*time.Minute)
 			authSubcheck(r)
 			for i, c := range configs(r.Quick()) {
